@@ -35,38 +35,42 @@ macro_rules! chk {
 /// evaluates `$e` with a fresh call counter `$c` available to closures; returns (value, calls)
 macro_rules! counted { ($c:ident, $e:expr) => {{ let $c = Cell::new(0u32); let v = $e; (v, $c.get()) }}; }
 
-fn dbl(x: u32) -> u32 { x.wrapping_mul(2) }
-fn dbl_opt(x: u32) -> Option<u32> { if x % 2 == 0 { Some(x / 2) } else { None } }
-fn dbl_res(x: u32) -> Result<u32, String> { if x % 2 == 0 { Ok(x / 2) } else { Err(format!("odd{}", x)) } }
-fn is_even(x: &u32) -> bool { *x % 2 == 0 }
-fn seven() -> u32 { 7 }
-fn none_u32() -> Option<u32> { None }
-fn some9() -> Option<u32> { Some(9) }
-fn elen(e: String) -> u32 { e.len() as u32 }
-fn estr(e: String) -> String { format!("<{}>", e) }
-fn rec(e: String) -> Result<u32, String> { if e.len() % 2 == 0 { Ok(e.len() as u32) } else { Err(format!("{}!", e)) } }
-fn slen(s: String) -> usize { s.len() }
+fn dbl(x: u32) -> u32 { bump(); x.wrapping_mul(2) }
+fn dbl_opt(x: u32) -> Option<u32> { bump(); if x % 2 == 0 { Some(x / 2) } else { None } }
+fn dbl_res(x: u32) -> Result<u32, String> { bump(); if x % 2 == 0 { Ok(x / 2) } else { Err(format!("odd{}", x)) } }
+fn is_even(x: &u32) -> bool { bump(); *x % 2 == 0 }
+thread_local! { static FN_CALLS: Cell<u32> = const { Cell::new(0) }; }
+fn bump() { FN_CALLS.with(|c| c.set(c.get() + 1)); }
+/// evaluates `$e`; returns (value, number of calls made to the counted fallback *functions*)
+macro_rules! fcounted { ($e:expr) => {{ FN_CALLS.with(|c| c.set(0)); let v = $e; (v, FN_CALLS.with(|c| c.get())) }}; }
+fn seven() -> u32 { bump(); 7 }
+fn none_u32() -> Option<u32> { bump(); None }
+fn some9() -> Option<u32> { bump(); Some(9) }
+fn elen(e: String) -> u32 { bump(); e.len() as u32 }
+fn estr(e: String) -> String { bump(); format!("<{}>", e) }
+fn rec(e: String) -> Result<u32, String> { bump(); if e.len() % 2 == 0 { Ok(e.len() as u32) } else { Err(format!("{}!", e)) } }
+fn slen(s: String) -> usize { bump(); s.len() }
 
 fn options_and_results() {
     let opts: [Option<u32>; 5] = [None, Some(0), Some(1), Some(6), Some(u32::MAX)];
     for o in opts {
         chk!("option::unwrap_or!", option::unwrap_or!(o, 7), o.unwrap_or(7));
         chk!("option::unwrap_or_else!(closure)", counted!(c, option::unwrap_or_else!(o, || { c.set(c.get() + 1); 7 })), counted!(c, o.unwrap_or_else(|| { c.set(c.get() + 1); 7 })));
-        chk!("option::unwrap_or_else!(fn)", option::unwrap_or_else!(o, seven), o.unwrap_or_else(seven));
+        chk!("option::unwrap_or_else!(fn)", fcounted!(option::unwrap_or_else!(o, seven)), fcounted!(o.unwrap_or_else(seven)));
         chk!("option::ok_or!", option::ok_or!(o, "e"), o.ok_or("e"));
         chk!("option::ok_or_else!(closure)", counted!(c, option::ok_or_else!(o, || { c.set(c.get() + 1); 7u8 })), counted!(c, o.ok_or_else(|| { c.set(c.get() + 1); 7u8 })));
-        chk!("option::ok_or_else!(fn)", option::ok_or_else!(o, seven), o.ok_or_else(seven));
+        chk!("option::ok_or_else!(fn)", fcounted!(option::ok_or_else!(o, seven)), fcounted!(o.ok_or_else(seven)));
         chk!("option::map!(closure)", counted!(c, option::map!(o, |x| { c.set(c.get() + 1); x.wrapping_add(3) })), counted!(c, o.map(|x| { c.set(c.get() + 1); x.wrapping_add(3) })));
-        chk!("option::map!(fn)", option::map!(o, dbl), o.map(dbl));
+        chk!("option::map!(fn)", fcounted!(option::map!(o, dbl)), fcounted!(o.map(dbl)));
         chk!("option::and_then!(closure)", counted!(c, option::and_then!(o, |x| { c.set(c.get() + 1); if x > 0 { Some(x - 1) } else { None } })), counted!(c, o.and_then(|x| { c.set(c.get() + 1); if x > 0 { Some(x - 1) } else { None } })));
-        chk!("option::and_then!(fn)", option::and_then!(o, dbl_opt), o.and_then(dbl_opt));
+        chk!("option::and_then!(fn)", fcounted!(option::and_then!(o, dbl_opt)), fcounted!(o.and_then(dbl_opt)));
         chk!("option::or_else!(closure)", counted!(c, option::or_else!(o, || { c.set(c.get() + 1); Some(9) })), counted!(c, o.or_else(|| { c.set(c.get() + 1); Some(9) })));
         chk!("option::or_else!(closure->None)", option::or_else!(o, || None), o.or_else(|| None));
-        chk!("option::or_else!(fn)", option::or_else!(o, some9), o.or_else(some9));
-        chk!("option::or_else!(fn->None)", option::or_else!(o, none_u32), o.or_else(none_u32));
+        chk!("option::or_else!(fn)", fcounted!(option::or_else!(o, some9)), fcounted!(o.or_else(some9)));
+        chk!("option::or_else!(fn->None)", fcounted!(option::or_else!(o, none_u32)), fcounted!(o.or_else(none_u32)));
         chk!("option::filter!(closure)", counted!(c, option::filter!(o, |x| { c.set(c.get() + 1); *x % 2 == 0 })), counted!(c, o.filter(|x| { c.set(c.get() + 1); *x % 2 == 0 })));
         chk!("option::filter!(pattern)", option::filter!(o, |&x| x > 0), o.filter(|&x| x > 0));
-        chk!("option::filter!(fn)", option::filter!(o, is_even), o.filter(is_even));
+        chk!("option::filter!(fn)", fcounted!(option::filter!(o, is_even)), fcounted!(o.filter(is_even)));
         chk!("option::copied", option::copied(o.as_ref()), o.as_ref().copied());
         chk!("option::unwrap!", std::panic::catch_unwind(|| option::unwrap!(o)).ok(), o);
         for oo in [None, Some(None), Some(o)] {
@@ -82,7 +86,7 @@ fn options_and_results() {
         chk!("option::unwrap_or!(String)", option::unwrap_or!(o.clone(), String::from("d")), o.clone().unwrap_or(String::from("d")));
         chk!("option::unwrap_or_else!(String)", counted!(c, option::unwrap_or_else!(o.clone(), || { c.set(c.get() + 1); String::from("d") })), counted!(c, o.clone().unwrap_or_else(|| { c.set(c.get() + 1); String::from("d") })));
         chk!("option::map!(String)", option::map!(o.clone(), |s| s.len()), o.clone().map(|s| s.len()));
-        chk!("option::map!(String,fn)", option::map!(o.clone(), slen), o.clone().map(slen));
+        chk!("option::map!(String,fn)", fcounted!(option::map!(o.clone(), slen)), fcounted!(o.clone().map(slen)));
         chk!("option::ok_or!(String)", option::ok_or!(o.clone(), 1u8), o.clone().ok_or(1u8));
         chk!("option::filter!(String)", option::filter!(o.clone(), |s| !s.is_empty()), o.clone().filter(|s| !s.is_empty()));
         chk!("option::and_then!(String)", option::and_then!(o.clone(), |s| if s.is_empty() { None } else { Some(s) }), o.clone().and_then(|s| if s.is_empty() { None } else { Some(s) }));
@@ -93,19 +97,19 @@ fn options_and_results() {
         let rc = || r.clone();
         chk!("result::unwrap_or!", result::unwrap_or!(rc(), 7), rc().unwrap_or(7));
         chk!("result::unwrap_or_else!(closure)", counted!(c, result::unwrap_or_else!(rc(), |e| { c.set(c.get() + 1); e.len() as u32 })), counted!(c, rc().unwrap_or_else(|e| { c.set(c.get() + 1); e.len() as u32 })));
-        chk!("result::unwrap_or_else!(fn)", result::unwrap_or_else!(rc(), elen), rc().unwrap_or_else(elen));
+        chk!("result::unwrap_or_else!(fn)", fcounted!(result::unwrap_or_else!(rc(), elen)), fcounted!(rc().unwrap_or_else(elen)));
         chk!("result::unwrap_err_or_else!(closure)", counted!(c, result::unwrap_err_or_else!(rc(), |v| { c.set(c.get() + 1); format!("v{}", v) })), counted!(c, match rc() { Ok(v) => { c.set(c.get() + 1); format!("v{}", v) } Err(e) => e }));
-        chk!("result::unwrap_err_or_else!(fn)", result::unwrap_err_or_else!(rc().map(|v| v.to_string()), estr), match rc() { Ok(v) => estr(v.to_string()), Err(e) => e });
+        chk!("result::unwrap_err_or_else!(fn)", fcounted!(result::unwrap_err_or_else!(rc().map(|v| v.to_string()), estr)), fcounted!(match rc() { Ok(v) => estr(v.to_string()), Err(e) => e }));
         chk!("result::ok!", result::ok!(rc()), rc().ok());
         chk!("result::err!", result::err!(rc()), rc().err());
         chk!("result::map!(closure)", counted!(c, result::map!(rc(), |x| { c.set(c.get() + 1); x.wrapping_add(1) })), counted!(c, rc().map(|x| { c.set(c.get() + 1); x.wrapping_add(1) })));
-        chk!("result::map!(fn)", result::map!(rc(), dbl), rc().map(dbl));
+        chk!("result::map!(fn)", fcounted!(result::map!(rc(), dbl)), fcounted!(rc().map(dbl)));
         chk!("result::map_err!(closure)", counted!(c, result::map_err!(rc(), |e| { c.set(c.get() + 1); e.len() })), counted!(c, rc().map_err(|e| { c.set(c.get() + 1); e.len() })));
-        chk!("result::map_err!(fn)", result::map_err!(rc(), estr), rc().map_err(estr));
+        chk!("result::map_err!(fn)", fcounted!(result::map_err!(rc(), estr)), fcounted!(rc().map_err(estr)));
         chk!("result::and_then!(closure)", counted!(c, result::and_then!(rc(), |x| { c.set(c.get() + 1); if x > 0 { Ok(x - 1) } else { Err(String::from("zero")) } })), counted!(c, rc().and_then(|x| { c.set(c.get() + 1); if x > 0 { Ok(x - 1) } else { Err(String::from("zero")) } })));
-        chk!("result::and_then!(fn)", result::and_then!(rc(), dbl_res), rc().and_then(dbl_res));
+        chk!("result::and_then!(fn)", fcounted!(result::and_then!(rc(), dbl_res)), fcounted!(rc().and_then(dbl_res)));
         chk!("result::or_else!(closure)", counted!(c, result::or_else!(rc(), |e| { c.set(c.get() + 1); if e.is_empty() { Ok(1u32) } else { Err(e.len()) } })), counted!(c, rc().or_else(|e| { c.set(c.get() + 1); if e.is_empty() { Ok(1u32) } else { Err(e.len()) } })));
-        chk!("result::or_else!(fn)", result::or_else!(rc(), rec), rc().or_else(rec));
+        chk!("result::or_else!(fn)", fcounted!(result::or_else!(rc(), rec)), fcounted!(rc().or_else(rec)));
         // pattern parameters
         let rp: Result<(u32, u32), (u8, u8)> = match rc() { Ok(v) => Ok((v, 2)), Err(e) => Err((e.len() as u8, 9)) };
         chk!("result::map!(pattern)", result::map!(rp, |(a, b)| a.wrapping_mul(b)), rp.map(|(a, b)| a.wrapping_mul(b)));
